@@ -248,6 +248,19 @@ def _contains(t, sub):
     return False
 
 
+def rule_finish_fifo(c, prog, R="C07.fix", register=True):
+    """the binary reader builds the tree in file order: roots in PRNT order, children appended in PRNT order"""
+    if register:
+        c.rule(R, "DeserializerState::finish walks the instances first-in first-out from the roots in PRNT order (queue operations push_back / pop_front only): a stack, or a pop from the other end, reverses sibling or root order")
+    fn = common.find_fn(prog, r"deserializer::state::DeserializerState.*::finish$")
+    qops = [cal.rsplit("::", 1)[-1] for i, cal, gen, t in D.mir_calls(fn) if cal and ("VecDeque::<T, A>::" in cal or "Vec::<T, A>::" in cal or "Vec::<T>::" in cal)]
+    order_ops = [q for q in qops if q in ("push_back", "pop_front", "push_front", "pop_back", "pop", "push", "insert", "remove", "swap_remove", "reverse", "drain", "truncate")]
+    if set(order_ops) <= {"push_back", "pop_front"} and "pop_front" in order_ops:
+        c.ok(R, "binary-finish:fifo")
+    else:
+        c.violation(R, "finish|fifo", f"DeserializerState::finish uses the work-list operations {sorted(set(order_ops))}; the tree must be built first-in first-out over PRNT order (push_back / pop_front) — otherwise roots or siblings come back in another order than they were written", fn.sp, instance="binary-finish:fifo")
+
+
 def run(c, prog):
     from . import C16 as _C16, C01 as _C01
     from sa import db as _dbm
@@ -490,10 +503,5 @@ def run(c, prog):
             c.ok(R, inst)
         else:
             c.violation(R, f"decoder-hash-iter|{owner}|{core.short(cal)}", f"{owner} iterates a hash container while decoding; if that order reaches insert order, load/save is not a fixed point", t.get("sp", ""), instance=inst)
-    fn = common.find_fn(prog, r"deserializer::state::DeserializerState.*::finish$")
-    qops = [cal.rsplit("::", 1)[-1] for i, cal, gen, t in D.mir_calls(fn) if cal and "VecDeque::<T, A>::" in cal]
-    if set(qops) <= {"new", "push_back", "pop_front", "with_capacity", "extend", "len", "is_empty", "reserve"} and "pop_front" in qops:
-        c.ok(R, "binary-finish:fifo")
-    else:
-        c.violation(R, "finish|fifo", f"DeserializerState::finish uses queue operations {qops}; construction order must be FIFO over PRNT order", fn.sp, instance="binary-finish:fifo")
+    rule_finish_fifo(c, prog, R, register=False)
     c.not_decided += ["byte-identity of lz4/zstd output (deterministic libraries, trusted)", "logical equality of a re-read DOM (C01/C02)"]
